@@ -97,12 +97,13 @@ def _npairs(topo, tier, seed):
 
 def groups(tier, seed):
     gs = [{"name": "rules", "kind": "rules", "cost": 8.0}]
-    target = 60.0 if tier == "quick" else 90.0
+    target = 40.0
     for topo in R.topologies(tier):
         npairs, ne = _npairs(topo, tier, seed)
         for order, bub in ETYPES:
-            per = 0.15 + 0.012 * ne + 0.02 * order + (0.0 if tier == "quick" else 0.15)
-            fixed = 20.0 if bub else 10.0
+            # measured on an idle core: ~0.1-0.2 s per (mesh, pattern) of one element type, 6-12 s fixed per group
+            per = 0.08 + 0.006 * ne + 0.01 * order + (0.0 if tier == "quick" else 0.08)
+            fixed = 12.0 if bub else 6.0
             work = npairs * per
             nsh = max(1, int(math.ceil(work / target)))
             for s in range(nsh):
